@@ -5,7 +5,7 @@ open Ipv8 Ipv8.C05
 
 inductive Payload where
   | cell (c : Cell SymBody)
-  | destroy (signer cid : Nat) (sigok : Bool)
+  | destroy (signer cid : Nat) (sigok : Bool) (reason : Nat)
 
 structure Pkt where
   src : Nat
@@ -38,7 +38,7 @@ def showSend : Out SymBody → Option String
   | .cell dst c =>
     let (mid, ident) := if c.plaintext then msgHeader c.body else (0, 0)
     some s!"{dst},cell,{c.cid},{b2n c.plaintext},{b2n c.relayEarly},{mid},{ident}"
-  | .destroy dst signer cid => some s!"{dst},destroy,{cid},0,0,{signer},0"
+  | .destroy dst signer cid reason => some s!"{dst},destroy,{cid},0,0,{signer},{reason}"
   | _ => none
 
 def showLog (node : Nat) : Out SymBody → Option String
@@ -67,7 +67,7 @@ def finish (net : Net) (res : Node × List (Out SymBody)) : Net × String :=
   let pk : List Pkt := outs.filterMap fun o =>
     match o with
     | .cell dst c => some ⟨n.self, dst, .cell c⟩
-    | .destroy dst signer cid => some ⟨n.self, dst, .destroy signer cid true⟩
+    | .destroy dst signer cid reason => some ⟨n.self, dst, .destroy signer cid true reason⟩
     | _ => none
   let net := putNode net n
   let net := { net with flight := net.flight ++ pk, hist := net.hist ++ pk }
@@ -124,7 +124,13 @@ def stepLine (net : Net) (toks : List String) : Net × String :=
     match n.toNat? with
     | some n => ({ nodes := (List.range n).map fun i => Node.init (i + 1) }, "ok")
     | none => bad
-  | ["tick"] => ({ net with nodes := net.nodes.map tick }, "ok")
+  | "xr" :: node :: cid :: rest =>
+    match node.toNat?, cid.toNat? with
+    | some node, some cid =>
+      match getNode net node with
+      | some n => finish net (expireRetry sym n cid (parseChoice rest))
+      | none => bad
+    | _, _ => bad
   | "dlv" :: idx :: rest =>
     match idx.toNat?.bind (removeAt net.flight) with
     | none => bad
@@ -135,7 +141,7 @@ def stepLine (net : Net) (toks : List String) : Net × String :=
       | some n =>
         match p.pl with
         | .cell c => finish net (processCell sym n p.src c (parseChoice rest))
-        | .destroy signer cid ok => finish net (onDestroy n signer cid ok)
+        | .destroy signer cid ok reason => finish net (onDestroy n signer cid ok reason)
   | "dlvs" :: idx :: src :: rest =>
     -- a genuine datagram is taken off the wire and handed to its destination from another source address
     match idx.toNat?.bind (removeAt net.flight), src.toNat? with
@@ -146,7 +152,7 @@ def stepLine (net : Net) (toks : List String) : Net × String :=
       | some n =>
         match p.pl with
         | .cell c => finish net (processCell sym n src c (parseChoice rest))
-        | .destroy signer cid ok => finish net (onDestroy n signer cid ok)
+        | .destroy signer cid ok reason => finish net (onDestroy n signer cid ok reason)
     | _, _ => bad
   | "fc" :: node :: src :: cid :: pt :: re :: _layers :: spec :: _ =>
     match nats [node, src, cid, pt, re] with
@@ -162,11 +168,11 @@ def stepLine (net : Net) (toks : List String) : Net × String :=
       | some n, some ⟨_, _, .cell c⟩ => finish net (processCell sym n src { c with cid := cid, plaintext := false, relayEarly := re == 1 } {})
       | _, _ => bad
     | _ => bad
-  | ["fd", node, _src, signer, cid, ok] =>
-    match nats [node, signer, cid, ok] with
-    | some [node, signer, cid, ok] =>
+  | ["fd", node, _src, signer, cid, ok, reason] =>
+    match nats [node, signer, cid, ok, reason] with
+    | some [node, signer, cid, ok, reason] =>
       match getNode net node with
-      | some n => finish net (onDestroy n signer cid (ok == 1))
+      | some n => finish net (onDestroy n signer cid (ok == 1) reason)
       | none => bad
     | _ => bad
   | op :: args =>
@@ -193,6 +199,14 @@ def stepLine (net : Net) (toks : List String) : Net × String :=
       | "og", [i, cid] =>
         match getNode net i with
         | some n => finish net (openStep n cid)
+        | none => bad
+      | "xq", [i, cid] =>
+        match getNode net i with
+        | some n => finish net (expireCreated n cid, [])
+        | none => bad
+      | "xp", [i, num] =>
+        match getNode net i with
+        | some n => finish net (expireCreate n num, [])
         | none => bad
       | "rmC", [i, cid] =>
         match getNode net i with
